@@ -49,6 +49,7 @@ var guardSpecs = []guardSpec{
 
 var ifRe = regexp.MustCompile(`\bif\b`)
 var retRe = regexp.MustCompile(`\breturn\b`)
+var staticRe = regexp.MustCompile(`^static\b`)
 var followRe = regexp.MustCompile(`^\s*if (err != nil|!ok)\b`)
 
 type hit struct {
@@ -214,6 +215,24 @@ func emitGuards(repo, outDir string) error {
 		// number of return statements: a tripwire for added or removed early exits
 		fmt.Fprintf(&sb, "Definition nret_%s : nat := %d.\n", strings.TrimPrefix(name, "skel_"), len(retRe.FindAllString(body, -1)))
 	}
+	// mutable function-local static storage in the C glue (shared between concurrent calls)
+	var statics []string
+	for _, cf := range []string{"bls_core.c", "bls12381_utils.c", "bls_thresholdsign_core.c", "dkg_core.c"} {
+		b, err := os.ReadFile(filepath.Join(repo, cf))
+		if err != nil {
+			continue
+		}
+		src := stripCCommentsG(string(b))
+		depth := 0
+		for _, ln := range strings.Split(src, "\n") {
+			t := strings.TrimSpace(ln)
+			if depth > 0 && staticRe.MatchString(t) && !strings.Contains(t, "const") && !strings.Contains(t, "(") {
+				statics = append(statics, fmt.Sprintf("\"%s: %s\"", cf, strings.ReplaceAll(t, "\"", "'")))
+			}
+			depth += strings.Count(ln, "{") - strings.Count(ln, "}")
+		}
+	}
+	fmt.Fprintf(&sb, "Definition c_static_mutable_locals : list string := [%s].\n", strings.Join(statics, "; "))
 	writeIfChanged(filepath.Join(outDir, "Guards.v"), sb.String())
 	return nil
 }
